@@ -1,13 +1,16 @@
 """C06 — acknowledged messaging delivers each message exactly once despite loss or duplication;
 else the sender raises after bounded retries; malformed frame sequences are rejected.
 
-Tie: the real `ReliableSender`, `Listener` (incl. `_recv_one`), `Bridge.recv_events`, `Bridge.shutdown`
-and `Executor.recv_loop` (shell objects, one loop iteration at a time in coroutine threads) wired to
-a FakeNet with a harness-controlled adversary (drop / duplicate / delay / reorder) and a fake clock,
-against Model/Ack.lean + Model/Frames.lean through Drive/C06.lean, op by op.
-Translator `retry_loops`: AST of executor.py / bridge.py / comms.py -> Gen/RetryLoops.lean.
-Oracle: written from the property text (exactly once or the sender raises once time has passed;
-never twice; never a different message; malformed frame sequences raise).
+Tie: the real `ReliableSender`, `Listener` (incl. `_recv_one`, `recv_messages`), `Bridge.recv_events`,
+`Bridge.shutdown` and `Executor.recv_loop` (shell objects, one loop iteration at a time in coroutine threads)
+wired to a FakeNet with a harness-controlled adversary (drop / duplicate / delay / reorder / inject malformed
+frame lists) and a fake clock, against Model/Ack.lean + Model/Frames.lean through Drive/C06.lean, op by op.
+"Handed to the application" is observed where the loop body takes a message out of the batch returned by
+`recv_messages` (resp. where `recv_events` returns its events), not at the return of `recv_messages`.
+Translator `retry_loops`: AST of executor.py / bridge.py / comms.py -> Gen/RetryLoops.lean (loops, derived
+phases, poll timeouts, constants).
+Oracle: written from the property text (handed to the receiving application exactly once or the sender raises
+once time has passed; never twice; never a different message; malformed frame sequences raise).
 """
 import ast
 import glob
@@ -15,35 +18,53 @@ import json
 import pickle
 
 PROPERTY = "C06"
-LEVEL_TEXT = ("Lean theorems over Model/Ack.lean (ReliableSender send/ack/maybe_retry, Listener._recv_one always-ack + deliver-unseen, "
-              "loop dispatch of Ack, per-endpoint clocks, any number of endpoints, adversarial network that drops, duplicates, delays and "
-              "reorders data frames and acknowledgements) and Model/Frames.lean (frame-sequence parser): for EVERY history of sends, network "
-              "faults, receive steps, timer ticks and retries, in any interleaving: no Syn is delivered twice and a delivered message is the "
-              "one handed to send under that idx; every accepted message is still in flight or was delivered; an in-flight entry disappears "
-              "only through an Ack and an Ack exists only after delivery; a message is transmitted at most max_retries+1 times before the "
-              "sender raises, and maybe_retry does raise within max_retries timer rounds unless the message is acknowledged (or its host was "
-              "removed); one surviving data frame gives exactly one delivery, one surviving Ack stops retransmission; the parser accepts "
-              "exactly the four legal frame shapes. The steady-state loops of the generated table feed Acks and call maybe_retry (decide).")
-LEVEL_NOTE = ("modelled, not verified: comms.py ReliableSender/Listener/callback, the Ack dispatch and maybe_retry call of Bridge.recv_events, "
-              "Bridge.shutdown, Executor.recv_loop; zmq sockets, the poller and the clock are fakes; pickle is trusted. Known: the shutdown "
-              "handshake (Bridge.shutdown loop, ExecutorExit of a leaving executor) is outside the acknowledged regime (c06_shutdown_full_fails).")
-TECHNIQUE = ("Lean 4 proof: 16-conjunct invariant + induction over the step list (unrestricted adversary), potential argument for the retry "
-             "budget; AST translator for the endpoint loops; differential correspondence with the real classes over a fake network")
+LEVEL_TEXT = ("Lean theorems over Model/Ack.lean (ReliableSender send/ack/maybe_retry; Listener._recv_one always-ack + accept-unseen; "
+              "recv_messages batches; the loop body taking messages one by one, Bridge.recv_events staging Events until it returns, "
+              "abandoned iterations; per-endpoint clocks, any number of endpoints, adversarial network that drops, duplicates, delays and "
+              "reorders data frames and acknowledgements) and Model/Frames.lean (frame-sequence parser). For EVERY history, any interleaving: "
+              "LISTENER level - no Syn accepted twice, an accepted message is the one handed to send under that idx, every sent message is in "
+              "flight or accepted, in-flight entries disappear only when the loop body feeds the matching Ack, an Ack exists only after "
+              "acceptance. APPLICATION level - over handed-over / waiting / discarded no Syn occurs twice and every accepted message is in "
+              "exactly one of the three (c06_app_at_most_once, c06_app_accounted); nothing is discarded except by an abandoned iteration; an "
+              "iteration that is not abandoned hands everything over; exactly-once at application level is PARTIAL (destination never "
+              "abandons an iteration) with c06_app_exactly_once_full_fails as witness (the Listener acknowledges before the application is "
+              "handed the message). RETRIES - at most max_retries+1 transmissions, then the raise; the sender raises within max_retries "
+              "timer rounds and, with iterations of at most B ms, by the deadline remaining*(grace+B) ms whatever the network does - both "
+              "PARTIAL (destination host not popped; c06_raises_within_budget_full_fails). FORGED/MALFORMED frames - the parser accepts "
+              "exactly the four legal shapes; in any state a malformed list is rejected or swallowed as a retransmission, never accepted "
+              "(c06_malformed_rejected); in every history with injected malformed lists everything accepted / handed over is genuine - the "
+              "message sent under that Syn to this endpoint or a local callback message (c06_malformed_never_delivered); even with arbitrary "
+              "injected frames no Syn is accepted or handed over twice (c06_forged_never_twice); exactly-once fails with malformed frames "
+              "(c06_app_exactly_once_forged_fails). LOOPS (generated "
+              "table, decide) - steady loops feed Acks, call maybe_retry and every non-startup loop polls with a finite timeout; deadline in "
+              "the constants of the source. Carried by the tie only: that a finite poll timeout makes iterations happen (fake poller blocks "
+              "for ever on timeout None), that what recv_events returns is what was staged.")
+LEVEL_NOTE = ("modelled, not verified: comms.py ReliableSender/Listener/callback, the dispatch / Ack feeding / maybe_retry call / batch handling of "
+              "Bridge.recv_events, Bridge.shutdown, Executor.recv_loop; zmq sockets, the poller and the clock are fakes; pickle is trusted. "
+              "Known: shutdown handshake (Bridge.shutdown loop, ExecutorExit of a leaving executor), popped hosts, acknowledged-then-abandoned "
+              "batches (break / handler exception / shutdown_reason / maybe_retry raising / malformed frame), Ack sent before a frame list is validated.")
+TECHNIQUE = ("Lean 4 proof: 17-conjunct invariant + induction over the step list (unrestricted adversary), permutation invariant for the "
+             "application-level places, potential arguments for the retry budget and for the wall-clock deadline, weaker invariants for "
+             "frame-forging adversaries (InvF: arbitrary frames, InvM: malformed frames); AST translator for the endpoint loops (phases derived from the source, poll timeouts); differential "
+             "correspondence with the real classes over a fake network, loop bodies observed message by message")
 LEAN_PROPS = ["EkwVerif.Props.C06"]
 LEAN_DRIVERS = ["C06"]
 RULE = ("random histories over 2-4 endpoints (real Bridge / Executor shells or bare Listener+ReliableSender pairs, both directions): sends, "
         "local un-acknowledged callbacks, per-packet drop / duplicate / out-of-order delivery of data frames and Acks, clock ticks around "
-        "the resend grace, loop iterations (or single _recv_one / maybe_retry calls on bare endpoints), host removal; every history ends "
-        "with max_retries+2 timer rounds under a fair or black-holing network. Plus random frame lists around the legal shapes for "
-        "_recv_one (non-trivial = rejected or swallowed as duplicate). non-trivial history = at least one dropped or duplicated packet and at least "
-        "one retransmission; distinct by content hash. oracle_violations counts the replays of the two known shutdown-handshake findings too")
+        "the resend grace, loop iterations (or single _recv_one / maybe_retry calls on bare endpoints), host removal; in 30% of the histories "
+        "malformed frame lists (legal shapes damaged, Syn frames naming live endpoints) injected into receive queues; in 40% application-level "
+        "failures (dead worker, TaskFailure reports, unexpected message types, early ExecutorShutdown, Bridge.shutdown); 20% run with the real "
+        "budget of 20 retries; every history ends with max_retries+2 timer rounds under a fair or black-holing network. Plus the deterministic "
+        "witnesses of every known finding, and random frame lists around the legal shapes for _recv_one in isolation (non-trivial = rejected "
+        "or swallowed as duplicate). non-trivial history = at least one dropped or duplicated packet and at least one retransmission, or an "
+        "abandoned iteration; distinct by content hash. oracle_violations counts the replays of the known findings too")
 ASSUMPTIONS = [
-    "zmq PUSH/PULL sockets, zmq.Poller and the time module are replaced by in-process fakes (multipart messages are atomic, as in zmq)",
-    "the network adversary drops, duplicates, delays and reorders whole multipart messages; it does not forge or corrupt frames",
+    "zmq PUSH/PULL sockets, zmq.Poller and the time module are replaced by in-process fakes (multipart messages are atomic, as in zmq); a blocking poll with a finite timeout returns whenever the harness lets the loop run, one with timeout None only when a packet is queued",
+    "the theorems about Reachable states are about a network adversary that drops, duplicates, delays and reorders whole multipart messages; frame-forging adversaries only in the theorems that say so (runF)",
     "hosts are added to a ReliableSender only at construction (Bridge registration / Executor.__init__); they may be removed later",
-    "messages whose destination host was removed from the sender (executor exit/failure) are outside the delivery obligation",
+    "deadline theorems: the clock of an endpoint advances only while it is blocked in its poll (work per iteration enters as `slack`)",
     "clock readings are multiples of 1 ms; each endpoint has its own clock",
-    "worker processes, shm server and data server of the Executor shell are stubs; max_retries_per_message is patched to 1-3 in most histories (20 in the rest)",
+    "worker processes, shm server and data server of the Executor shell are stubs; max_retries_per_message is patched to 1-3 in 80% of the histories (20 in the rest)",
 ]
 
 GRACE_MS = 800
@@ -61,13 +82,8 @@ def _mods():
 
 # ----------------------------------------------------------------------------- translator
 
-PHASES = {
-    "Bridge.__init__": "startup",
-    "Bridge.recv_events": "steady",
-    "Bridge.shutdown": "shutdown",
-    "Executor.start_workers": "startup",
-    "Executor.recv_loop": "steady",
-}
+SEND_CALLS = (("sender", "send"),)          # self.sender.send(...)
+SEND_METHODS = ("_send", "to_controller")   # self._send(...), self.to_controller(...)
 
 
 def _is_self_attr_call(node, obj, meth):
@@ -75,6 +91,17 @@ def _is_self_attr_call(node, obj, meth):
     return (isinstance(node, ast.Call) and isinstance(node.func, ast.Attribute) and node.func.attr == meth
             and isinstance(node.func.value, ast.Attribute) and node.func.value.attr == obj
             and isinstance(node.func.value.value, ast.Name) and node.func.value.value.id == "self")
+
+
+def _is_self_call(node, meth=None):
+    """`self.<meth>(...)`"""
+    return (isinstance(node, ast.Call) and isinstance(node.func, ast.Attribute)
+            and isinstance(node.func.value, ast.Name) and node.func.value.id == "self"
+            and (meth is None or node.func.attr == meth))
+
+
+def _is_ack_send(node):
+    return any(_is_self_attr_call(node, o, m) for o, m in SEND_CALLS) or any(_is_self_call(node, m) for m in SEND_METHODS)
 
 
 def _unconditional_stmts(body):
@@ -87,8 +114,29 @@ def _unconditional_stmts(body):
             yield from _unconditional_stmts(st.body)
 
 
-def _loop_info(loop):
-    receives = any(_is_self_attr_call(n, "mlistener", "recv_messages") for n in ast.walk(loop))
+def _timeout_of(call, consts_names):
+    """the `timeout_ms` argument of a `recv_messages(...)` call: ("int", n) | ("name", id) | ("default",) | ("none",)"""
+    arg = None
+    if call.args:
+        arg = call.args[0]
+    for kw in call.keywords:
+        if kw.arg == "timeout_ms":
+            arg = kw.value
+    if arg is None:
+        return ("default",)
+    if isinstance(arg, ast.Constant):
+        if arg.value is None:
+            return ("none",)
+        if isinstance(arg.value, int) and not isinstance(arg.value, bool) and arg.value > 0:
+            return ("int", arg.value)
+    if isinstance(arg, ast.Name) and arg.id in consts_names:
+        return ("name", arg.id)
+    raise ValueError(f"recv_messages timeout argument not recognised: {ast.dump(arg)}")
+
+
+def _loop_info(loop, consts_names):
+    calls = [n for n in ast.walk(loop) if _is_self_attr_call(n, "mlistener", "recv_messages")]
+    receives = bool(calls)
     feeds = False
     for n in ast.walk(loop):
         if isinstance(n, ast.If) and isinstance(n.test, ast.Call) and getattr(n.test.func, "id", None) == "isinstance" \
@@ -102,18 +150,102 @@ def _loop_info(loop):
                         feeds = True
     retries = any(isinstance(st, ast.Expr) and _is_self_attr_call(st.value, "sender", "maybe_retry") and not st.value.args
                   for st in _unconditional_stmts(loop.body))
-    return receives, feeds, retries
+    timeouts = [_timeout_of(c, consts_names) for c in calls]
+    if receives and len(set(timeouts)) != 1:
+        raise ValueError("a receive loop with several differently timed recv_messages calls")
+    return receives, feeds, retries, (timeouts[0] if timeouts else None)
+
+
+def _first_send_line(fn):
+    """line of the first acknowledged send in a method (None if it sends nothing)"""
+    lines = [n.lineno for n in ast.walk(fn) if _is_ack_send(n)]
+    return min(lines) if lines else None
+
+
+def _derive_phase(cls, fn, loop):
+    """Phase of a receive loop, derived from the source:
+    * `shutdown`  — the method constructs `ExecutorShutdown(...)` before the loop (the loop waits for the
+                    executors' answers to the shutdown it has just sent);
+    * `startup`   — nothing can be in flight yet: no acknowledged send (`self.sender.send`, `self._send`,
+                    `self.to_controller`) precedes the loop in its method, the method is `__init__` or is called
+                    (inside the class) only from call sites that no acknowledged send precedes in their method,
+                    and those callers are `__init__` or are not called from inside the class;
+    * `steady`    — everything else (the strictest class: must feed Acks, call maybe_retry, poll with a finite timeout).
+    """
+    mk_shutdown = [n.lineno for n in ast.walk(fn) if isinstance(n, ast.Call) and getattr(n.func, "id", None) == "ExecutorShutdown"]
+    if mk_shutdown and min(mk_shutdown) < loop.lineno:
+        return "shutdown"
+    first = _first_send_line(fn)
+    if first is not None and first < loop.lineno:
+        return "steady"
+    methods = {f.name: f for f in cls.body if isinstance(f, ast.FunctionDef)}
+
+    def call_sites(name):
+        out = []
+        for f in methods.values():
+            for n in ast.walk(f):
+                if _is_self_call(n, name):
+                    out.append((f, n.lineno))
+        return out
+
+    def pre_send_entry(f, depth=0):
+        """f runs before anything was sent"""
+        if f.name == "__init__":
+            return True
+        sites = call_sites(f.name)
+        if depth > 3:
+            return False
+        if not sites:
+            # an entry point called from outside: acceptable only as the single caller chain of a start-up helper
+            return depth > 0
+        for g, line in sites:
+            fs = _first_send_line(g)
+            if fs is not None and fs < line:
+                return False
+            if not pre_send_entry(g, depth + 1):
+                return False
+        return True
+
+    if fn.name == "__init__" or (call_sites(fn.name) and pre_send_entry(fn)):
+        return "startup"
+    return "steady"
 
 
 def scan_sources(repo):
     """AST scan; returns (loops, consts). Raises ValueError on an unrecognised shape."""
     base = repo / "src" / "cascade" / "executor"
+    consts = {}
+    ctree = ast.parse((base / "comms.py").read_text())
+    for n in ctree.body:
+        if isinstance(n, ast.Assign) and len(n.targets) == 1 and isinstance(n.targets[0], ast.Name) \
+                and isinstance(n.value, ast.Constant) and isinstance(n.value.value, int):
+            consts[n.targets[0].id] = n.value.value
+    for k in ("max_retries_per_message", "default_message_resend_ms", "default_timeout_ms"):
+        if k not in consts:
+            raise ValueError(f"comms.{k} is not a plain integer constant any more")
+    # default of Listener.recv_messages(timeout_ms=...)
+    default_timeout = None
+    for n in ast.walk(ctree):
+        if isinstance(n, ast.FunctionDef) and n.name == "recv_messages":
+            args = n.args
+            names = [a.arg for a in args.args]
+            if "timeout_ms" in names and args.defaults:
+                d = args.defaults[names.index("timeout_ms") - (len(names) - len(args.defaults))]
+                if isinstance(d, ast.Name) and d.id == "default_timeout_ms":
+                    default_timeout = ("name", "default_timeout_ms")
+                elif isinstance(d, ast.Constant) and d.value is None:
+                    default_timeout = ("none",)
+                elif isinstance(d, ast.Constant) and isinstance(d.value, int):
+                    default_timeout = ("int", d.value)
+    if default_timeout is None:
+        raise ValueError("default of Listener.recv_messages(timeout_ms=...) not recognised")
     loops = []
     for fname in ("bridge.py", "executor.py"):
         tree = ast.parse((base / fname).read_text())
         alias_ok = any(isinstance(n, ast.ImportFrom) and n.module == "cascade.executor.comms"
                        and any(a.name == "default_message_resend_ms" and a.asname == "resend_grace_ms" for a in n.names)
                        for n in ast.walk(tree))
+        local_names = {"resend_grace_ms": "default_message_resend_ms"} if alias_ok else {}
         for cls in [n for n in tree.body if isinstance(n, ast.ClassDef)]:
             owner = None
             for n in ast.walk(cls):
@@ -129,33 +261,47 @@ def scan_sources(repo):
                 k = 0
                 for n in ast.walk(fn):
                     if isinstance(n, ast.While):
-                        receives, feeds, retries = _loop_info(n)
+                        receives, feeds, retries, tmo = _loop_info(n, local_names)
                         if not receives:
                             continue
                         name = f"{cls.name}.{fn.name}" + (f"#{k}" if k else "")
                         k += 1
-                        if name not in PHASES:
-                            raise ValueError(f"unclassified receive loop {name} in {fname}: add it to PHASES after review")
-                        loops.append({"name": name, "phase": PHASES[name], "feedsAck": feeds, "callsRetry": retries})
-    missing = sorted(set(PHASES) - {l["name"] for l in loops})
-    if missing:
-        raise ValueError(f"receive loops not found any more: {missing}")
-    consts = {}
-    ctree = ast.parse((base / "comms.py").read_text())
-    for n in ctree.body:
-        if isinstance(n, ast.Assign) and len(n.targets) == 1 and isinstance(n.targets[0], ast.Name) \
-                and isinstance(n.value, ast.Constant) and isinstance(n.value.value, int):
-            consts[n.targets[0].id] = n.value.value
-    for k in ("max_retries_per_message", "default_message_resend_ms", "default_timeout_ms"):
-        if k not in consts:
-            raise ValueError(f"comms.{k} is not a plain integer constant any more")
+                        if tmo == ("default",):
+                            tmo = default_timeout
+                        if tmo[0] == "name":
+                            tmo = ("name", local_names.get(tmo[1], tmo[1]))
+                        loops.append({"name": name, "phase": _derive_phase(cls, fn, n), "feedsAck": feeds, "callsRetry": retries,
+                                      "timeout": list(tmo)})
+    if not loops:
+        raise ValueError("no receive loop found")
     return loops, consts
+
+
+def timeout_ms(loop, consts):
+    t = loop["timeout"]
+    if t[0] == "none":
+        return None
+    if t[0] == "int":
+        return t[1]
+    return consts[t[1]]
+
+
+LEAN_CONST = {"default_message_resend_ms": "resendGraceMs", "default_timeout_ms": "defaultTimeoutMs",
+              "max_retries_per_message": "maxRetries"}
 
 
 def render_gen(loops, consts):
     b = lambda x: "true" if x else "false"
+
+    def tmo(t):
+        if t[0] == "none":
+            return "none"
+        if t[0] == "int":
+            return f"some {t[1]}"
+        return f"some {LEAN_CONST[t[1]]}"
     rows = ",\n".join(
-        f'  {{ name := "{l["name"]}", phase := .{l["phase"]}, feedsAck := {b(l["feedsAck"])}, callsRetry := {b(l["callsRetry"])} }}'
+        f'  {{ name := "{l["name"]}", phase := .{l["phase"]}, feedsAck := {b(l["feedsAck"])}, callsRetry := {b(l["callsRetry"])}, '
+        f'timeoutMs := {tmo(l["timeout"])} }}'
         for l in loops)
     return f"""/- GENERATED by harness/ekw/props/c06.py::translate (translator `retry_loops`) from
    src/cascade/executor/{{executor,bridge,comms}}.py — do not edit. -/
@@ -164,17 +310,18 @@ import EkwVerif.Model.Ack
 namespace EkwVerif.Gen.RetryLoops
 open EkwVerif.Ack
 
-/-- every `while` loop of a class owning a ReliableSender that calls `recv_messages` -/
-def loops : List LoopInfo := [
-{rows}
-]
-
 /-- comms.max_retries_per_message -/
 def maxRetries : Nat := {consts["max_retries_per_message"]}
 /-- comms.default_message_resend_ms -/
 def resendGraceMs : Nat := {consts["default_message_resend_ms"]}
 /-- comms.default_timeout_ms -/
 def defaultTimeoutMs : Nat := {consts["default_timeout_ms"]}
+
+/-- every `while` loop of a class owning a ReliableSender that calls `recv_messages`; phase derived
+from the source (`_derive_phase`), `timeoutMs` = the `timeout_ms` the loop polls with -/
+def loops : List LoopInfo := [
+{rows}
+]
 
 end EkwVerif.Gen.RetryLoops
 """
@@ -195,6 +342,8 @@ def translate(ctx):
         path.write_text(text)
     ctx.extra["retry_loops_table"] = loops
     ctx.extra["comms_consts"] = {k: consts[k] for k in ("max_retries_per_message", "default_message_resend_ms", "default_timeout_ms")}
+    for l in loops:
+        ctx.count(f"table:{l['name']}:{l['phase']}:timeout={timeout_ms(l, consts)}")
 
 
 def _table():
@@ -219,6 +368,10 @@ def mk_msg(sim, cls, uid, a, dst=None):
         m = msg.TaskSequence(worker=WorkerId(f"h{dst}", "w0"), tasks=[f"t{uid}"], publish=set())
     elif cls == "cmd":
         m = msg.DatasetTransmitCommand(source="h1", target="controller", daddress="tcp://x", ds=DatasetId("t", f"c{uid}"), idx=uid)
+    elif cls == "fail":      # a worker reports a task failure (forwarded to the controller: a ToShutdown message there)
+        m = msg.TaskFailure(worker=WorkerId(f"h{a}", "w0"), task=f"t{uid}", detail="boom")
+    elif cls == "failx":     # ... naming a host the controller does not know (its handler raises KeyError)
+        m = msg.TaskFailure(worker=WorkerId("h77", "w0"), task=f"t{uid}", detail="boom")
     elif cls == "shutdown":
         m = msg.ExecutorShutdown()
     else:
@@ -226,6 +379,17 @@ def mk_msg(sim, cls, uid, a, dst=None):
     if cls != "shutdown":
         sim.msgids[repr(m)] = uid
     return m
+
+
+def frame_shape(fs):
+    """the message a frame list carries according to the wire format (written from comms.send / send_data, not
+    from the parser): [Syn,] message | [Syn,] header, value. None = malformed."""
+    body = fs[1:] if fs and fs[0][0] == "syn" else fs
+    if len(body) == 1 and body[0][0] in ("msg", "ack"):
+        return list(body[0])
+    if len(body) == 2 and body[0][0] == "hdr":
+        return ["payload", body[0][1], body[1]]
+    return None
 
 
 class RealRun:
@@ -238,8 +402,10 @@ class RealRun:
         self.case = case
         self.sim = sim_c06.Sim(*_mods())
         self.trace = []
-        self.loops_seen = []     # (loop name, retried?, acks in batch, acks fed) per iteration, for the translator cross-check
+        self.loops_seen = []     # (loop name, retried?, acks taken, acks fed, failed?) per iteration, for the translator cross-check
+        self.polls_seen = []     # (loop name, timeout the blocking poll was entered with)
         self.dst_of = {}         # (ep, host name) -> destination endpoint
+        self.opno = 0
 
     def run(self):
         case = self.case
@@ -255,6 +421,7 @@ class RealRun:
             out.append((reset, "reset"))
             for op in case["ops"]:
                 try:
+                    self.opno += 1
                     w0 = len(sim.net.emitted)
                     pos = len(self.trace)
                     out.append(self.op(op))
@@ -262,7 +429,7 @@ class RealRun:
                     del self.trace[pos:]
                     self.trace.extend(t for t in tail if t[0] == "sent")
                     for ad, fr in sim.net.emitted[w0:]:      # frames on the wire (zmq socket seam), before the op's outcome
-                        self._tx(fr)
+                        self._tx(ad, fr, op.get("ep"))
                     self.trace.extend(t for t in tail if t[0] != "sent")
                 except Exception as ex:  # noqa: BLE001 - unexpected exception of the real code = a result
                     out.append(({"op": "noop"}, {"crash": f"{type(ex).__name__}: {ex}"}))
@@ -271,12 +438,15 @@ class RealRun:
             self.final = [self._final(e) for e in sim.eps]
         return out
 
-    def _tx(self, frames):
+    def _tx(self, dst_addr, frames, by):
+        """what an endpoint put on the wire: data frames (Syn + message) and acknowledgements"""
         msg = self.sim.msg
         try:
             first = pickle.loads(frames[0])
             if isinstance(first, msg.Syn) and len(frames) > 1:
-                self.trace.append(("tx", self.sim.addr_id(first.addr), repr(pickle.loads(frames[1]))))
+                self.trace.append(("tx", self.sim.addr_id(first.addr), repr(pickle.loads(frames[1])), first.idx))
+            elif isinstance(first, msg.Ack) and len(frames) == 1:
+                self.trace.append(("acktx", by, self.sim.addr_id(dst_addr), first.idx, self.opno))
         except Exception:  # noqa: BLE001
             pass
 
@@ -287,14 +457,18 @@ class RealRun:
 
     def _events(self, e):
         """record what the op just executed at endpoint e did, for the oracle"""
-        msg = self.sim.msg
-        for host, key in e.sent:
-            self.trace.append(("sent", e.a, self.dst_of.get((e.a, host)), key, host, e.loop))
+        for host, key, idx in e.sent:
+            self.trace.append(("sent", e.a, self.dst_of.get((e.a, host)), key, host, e.loop, idx))
         for host in e.sender.hosts.popped:
             self.trace.append(("popped", e.a, host))
-        for m in e.got:
-            if not isinstance(m, msg.Ack):
-                self.trace.append(("delivered", e.a, repr(m)))
+        for m in e.accepted:
+            self.trace.append(("accepted", e.a, repr(m), self.opno))
+        for m in e.handled:
+            self.trace.append(("handled", e.a, repr(m), self.opno))
+        if e.aborted:
+            self.trace.append(("aborted", e.a, e.aborted[0], self.opno, e.aborted[1]))
+        elif e.errors:
+            self.trace.append(("aborted", e.a, "malformed-frame", self.opno, getattr(e, "iter_loop", e.loop)))
         if e.raised:
             self.trace.append(("raised", e.a))
 
@@ -362,6 +536,19 @@ class RealRun:
             sim.net.inbox[pkt[0]].queue.append(pkt[1])
             self.trace.append(("local", a, repr(m)))
             return ({"op": "local", "ep": a, "m": o["m"]}, e.digest(w0))
+        if kind == "inject":
+            # a forged / malformed frame list appears in the receive queue of endpoint a
+            raw = tuple(_frame_bytes(sim, f) for f in o["frames"])
+            e.listener.socket.queue.append(raw)
+            self.trace.append(("inject", a, frame_shape(o["frames"]) is None))
+            return ({"op": "inject", "ep": a, "frames": o["frames"]}, {"inbox": len(e.listener.socket.queue)})
+        if kind == "killworker":
+            if e.kind == "executor":
+                for w in list(e.obj.workers):
+                    dead = self.S.StubProc()
+                    dead.exitcode = 1
+                    e.obj.workers[w] = dead
+            return (None, None)
         if kind == "pop":
             e.sender.hosts.pop(o["host"], None)
             self._events(e)
@@ -372,7 +559,7 @@ class RealRun:
             except Exception:  # noqa: BLE001 - counted by the wrapper
                 m = None
             if m is not None:
-                e.got.append(m)
+                e.on_take(m)
                 if isinstance(m, sim.msg.Ack):
                     e.sender.ack(m.idx)
             self._events(e)
@@ -392,53 +579,86 @@ class RealRun:
     def _round(self, e):
         self.trace.append(("round", e.a, e.sender.resend_grace // 1_000_000, e.loop))
 
+    def _cause(self, e, failed_exc):
+        """why the iteration that just ended was abandoned — from what was observable"""
+        sim = self.sim
+        if e.errors:
+            return "malformed-frame"
+        if e.raised:
+            return "retry-raised"
+        if e.kind == "executor":
+            if any(isinstance(m, sim.msg.ExecutorShutdown) for m in e.taken_msgs) and not any("ExecutorFailure" in x[1] for x in e.sent):
+                return "break-at-shutdown"
+            return "handler-exception"
+        if e.kind == "bridge":
+            B = sim.bridge_mod
+            if e.taken_msgs and isinstance(e.taken_msgs[-1], (B.ToShutdown, B.Unsupported)) and not failed_exc:
+                return "shutdown-reason"
+            if any(isinstance(m, (B.ToShutdown, B.Unsupported)) for m in e.taken_msgs):
+                return "shutdown-reason"
+            return "handler-exception"
+        return "handler-exception"
+
     def _poll(self, e, w0, start_shutdown=False):
         sim = self.sim
         a = e.a
+        Coro = self.S.Coro
+        e.iter_loop = e.loop
         if e.kind == "bare":
-            e.acts.append(["recvall", "harness"])
+            # the harness' own loop over a bare endpoint: recv_messages, dispatch, maybe_retry
             try:
                 for m in e.listener.recv_messages(0):
                     if isinstance(m, sim.msg.Ack):
                         e.sender.ack(m.idx)
                 e.sender.maybe_retry()
-            except ValueError:
+            except Exception:  # noqa: BLE001 - like the real loops: any exception ends the iteration
                 pass
+            if sum(len(x) for x in e.pending()):
+                e.abandon(self._cause(e, True), e.loop)
             self._round(e)
             self._events(e)
             return ({"op": "poll", "ep": a, "acts": list(e.acts)}, e.digest(w0))
         # real loop in a coroutine thread, one iteration
+        loop0 = e.loop
         if start_shutdown and e.kind == "bridge":
             if e.coro is not None:
                 e.coro.stop()
-            e.coro = self.S.Coro(sim, e.obj.shutdown)
+            if sum(len(x) for x in e.pending()):
+                e.abandon("shutdown-call", loop0)
+            e.coro = Coro(sim, e.obj.shutdown)
+            e.coro.start()
         elif e.coro is None or (e.coro.done and e.coro.exc is None and e.kind == "bridge" and e.loop == "Bridge.recv_events"):
-            e.coro = self.S.Coro(sim, e.coro_fn)
-        if e.coro.done:
+            e.coro = Coro(sim, e.coro_fn)
+            e.coro.start()
+        self._round(e)                 # an opportunity to iterate, whether or not the loop takes it
+        if e.coro.done and not start_shutdown:
             return (None, None)            # the loop has ended (executor terminated / controller raised)
-        e.coro.resume()
-        acts = list(e.acts)
-        if e.kind == "executor":
-            # Executor.recv_loop leaves its dispatch `for` at ExecutorShutdown: the rest of the batch is not dispatched
-            stop = next((i for i, m in enumerate(e.got) if isinstance(m, sim.msg.ExecutorShutdown)), None)
-            if stop is not None:
-                acts = [x + [stop + 1] if x[0] == "recvall" else x for x in acts]
+        woke = False
+        if not e.coro.done:
+            # blocked in poll(timeout): a finite timeout elapses, `None` waits for a packet
+            if e.coro.wait is not None or e.listener.socket.queue:
+                woke = True
+                e.coro.resume()
         ended = None
+        failed_exc = False
         if e.coro.done:
             ended = "return" if e.coro.exc is None else type(e.coro.exc).__name__
             if e.coro.exc is not None:
+                failed_exc = True
                 self.trace.append(("loop-raised", a, f"{type(e.coro.exc).__name__}: {e.coro.exc}"))
+            elif e.kind == "bridge" and loop0 == "Bridge.recv_events" and e.loop == "Bridge.recv_events" and woke:
+                e.commit(list(e.coro.result or []))
+        if sum(len(x) for x in e.pending()):
+            if e.coro.done or e.loop != loop0 or e.kind == "executor":
+                e.abandon(self._cause(e, failed_exc), loop0)
+        acts = list(e.acts)
         # per iteration: did the loop call maybe_retry / feed the Acks (translator cross-check)
-        failed = (e.coro.done and e.coro.exc is not None) or any("ExecutorFailure" in key for _, key in e.sent)
-        for i, act in enumerate(acts):
-            if act[0] == "recvall":
-                # (with several recvall markers in one resume `got` spans them all; that only happens on loop changes)
-                nxt = next((j for j in range(i + 1, len(acts)) if acts[j][0] == "recvall"), len(acts))
-                retried = any(x[0] == "retry" for x in acts[i + 1:nxt])
-                dispatched = e.got if len(act) < 3 else e.got[:act[2]]
-                nack = sum(1 for m in dispatched if isinstance(m, sim.msg.Ack))
-                self.loops_seen.append((act[1], retried, nack, e.fed, bool(failed)))
-        self._round(e)
+        if woke:
+            failed = failed_exc or e.loop != loop0 or any("ExecutorFailure" in x[1] for x in e.sent) or bool(e.aborted) or bool(e.errors)
+            retried = any(x[0] == "retry" for x in acts)
+            nack = sum(1 for m in e.taken_msgs if isinstance(m, sim.msg.Ack))
+            self.loops_seen.append((loop0, retried, nack, e.fed, bool(failed)))
+        self.polls_seen.extend(e.poll_timeouts)
         self._events(e)
         return ({"op": "poll", "ep": a, "acts": acts}, e.digest(w0, {"ended": ended}))
 
@@ -446,45 +666,61 @@ class RealRun:
 # ----------------------------------------------------------------------------- oracle (property text only)
 
 def oracle(case, trace, final):
-    """Every message handed to send is delivered to the receiving application exactly once, or the
-    sender raises within the retry budget once time has been allowed to pass; never twice; never a
-    different message. Returns (signature, text) or None."""
+    """Every message handed to send is handed to the receiving APPLICATION (taken by the receiving loop's body /
+    returned by recv_events to the controller) exactly once, or the sender raises within the retry budget once time
+    has been allowed to pass; never twice; never a different message. Returns (signature, text) or None.
+    Reads only what was observable from outside the acknowledged layer: send calls, frames on the wire, what the
+    application was handed, raises, and how loop iterations ended."""
     maxr = case["max"]
-    sent = {}        # (dst, key) -> [count, sender, host, rounds]
-    delivered = {}   # (dst, key) -> count
+    sent = {}        # (dst, key) -> entry
+    handled = {}     # (dst, key) -> count
     local = {}       # (dst, key) -> count
     raised = set()
     raised_before_tx = set()   # a sender object that is used on after it raised is outside the bound
     tx = {}
-    since_tick = {}
+    idx_of = {}      # (sender, key) -> [idx of every Syn the message was put on the wire under]
+    acked_at = {}    # (sender, idx) -> [(acknowledging endpoint, op number)]
+    aborts = {}      # endpoint -> [(op number, cause, loop)]
     popped = set()
     for ev in trace:
         k = ev[0]
         if k == "crash":
             return ({"kind": "crash"}, f"real code raised unexpectedly: {ev[2]}")
         if k == "sent":
-            _, a, dst, key, host, loop = ev
-            ent = sent.setdefault((dst, key), {"n": 0, "from": a, "host": host, "loop": loop, "rounds": {}})
+            _, a, dst, key, host, loop, idx = ev
+            ent = sent.setdefault((dst, key), {"n": 0, "from": a, "host": host, "loop": loop, "rounds": {}, "idxs": []})
             ent["n"] += 1
+            ent["idxs"].append(idx)
             ent["loop"] = loop
             ent["rounds"] = {}
+            ent["elapsed"] = 0          # time on the sender's clock since the message was last due for (re)transmission
         elif k == "local":
             local[(ev[1], ev[2])] = local.get((ev[1], ev[2]), 0) + 1
-        elif k == "delivered":
-            _, b, key = ev
-            delivered[(b, key)] = delivered.get((b, key), 0) + 1
+        elif k == "handled":
+            _, b, key, _opno = ev
+            handled[(b, key)] = handled.get((b, key), 0) + 1
             allowed = sent.get((b, key), {"n": 0})["n"] + local.get((b, key), 0)
             if allowed == 0:
-                return ({"kind": "wrong-message"}, f"endpoint {b} was handed {key}, which nobody sent to it")
-            if delivered[(b, key)] > allowed:
-                return ({"kind": "duplicate-delivery"}, f"endpoint {b} was handed {key} {delivered[(b, key)]} times, sent {allowed} times")
+                return ({"kind": "wrong-message"}, f"the application of endpoint {b} was handed {key}, which nobody sent to it")
+            if handled[(b, key)] > allowed:
+                return ({"kind": "duplicate-delivery"},
+                        f"the application of endpoint {b} was handed {key} {handled[(b, key)]} times, sent {allowed} times")
         elif k == "tx":
-            _, a, key = ev
+            _, a, key, idx = ev
             tx[(a, key)] = tx.get((a, key), 0) + 1
+            idx_of.setdefault((a, key), [])
+            if idx not in idx_of[(a, key)]:
+                idx_of[(a, key)].append(idx)
             nsent = sum(ent["n"] for (d, kk), ent in sent.items() if kk == key and ent["from"] == a)
             if nsent and tx[(a, key)] > nsent * (maxr + 1) and a not in raised_before_tx:
                 return ({"kind": "too-many-transmissions"},
                         f"{key} from endpoint {a} was put on the wire {tx[(a, key)]} times, budget is 1 + {maxr} retries per send ({nsent} sends)")
+        elif k == "acktx":
+            _, by, to, idx, opno = ev
+            acked_at.setdefault((to, idx), []).append((by, opno))
+        elif k == "aborted":
+            _, b, cause, opno, loop = ev
+            aborts.setdefault(b, []).append((opno, cause, loop))
         elif k == "raised":
             raised.add(ev[1])
             raised_before_tx.add(ev[1])
@@ -493,38 +729,101 @@ def oracle(case, trace, final):
         elif k == "popped":
             popped.add((ev[1], ev[2]))
         elif k == "tick":
-            since_tick[ev[1]] = since_tick.get(ev[1], 0) + ev[2]
+            for ent in sent.values():
+                if ent["from"] == ev[1]:
+                    ent["elapsed"] += ev[2]
         elif k == "round":
+            # an opportunity for the sender's loop to iterate: every message whose grace has run out is due for a
+            # retransmission now (its timer restarts); the others keep waiting
             a, grace, loop = ev[1], ev[2], ev[3]
-            if since_tick.get(a, 0) > grace:
-                for ent in sent.values():
-                    if ent["from"] == a:
-                        ent["rounds"][loop] = ent["rounds"].get(loop, 0) + 1
-            since_tick[a] = 0
+            for ent in sent.values():
+                if ent["from"] == a and ent["elapsed"] > grace:
+                    ent["rounds"][loop] = ent["rounds"].get(loop, 0) + 1
+                    ent["elapsed"] = 0
     for (dst, key), ent in sorted(sent.items(), key=lambda x: str(x[0])):
-        got = delivered.get((dst, key), 0) - local.get((dst, key), 0)
-        if got >= ent["n"] or ent["from"] in raised or (ent["from"], ent["host"]) in popped:
+        got = handled.get((dst, key), 0) - local.get((dst, key), 0)
+        if got >= ent["n"] or ent["from"] in raised:
             continue
         a = ent["from"]
+        # (1) the destination acknowledged it (the sender will never resend nor raise) but its application never got it
+        # (messages of identical content are told apart by the idx of the Syn they went out under)
+        unacked = [i for i in ent["idxs"] if i is None or not any(by == dst for by, _ in acked_at.get((a, i), []))]
+        acks = [x for i in ent["idxs"] for x in acked_at.get((a, i), []) if x[0] == dst]
+        if acks and not unacked:
+            first = min(op for _, op in acks)
+            later = [(op, cause, loop) for op, cause, loop in aborts.get(dst, []) if op >= first]
+            cause, loop = (later[0][1], later[0][2]) if later else ("none", final[dst]["loop"] if dst is not None and dst < len(final) else "?")
+            return ({"kind": "acked-not-handled", "cause": cause, "loop": loop},
+                    f"{key} handed to send at endpoint {a} was acknowledged by endpoint {dst} (op {first}) but never handed to its application "
+                    f"({loop}); the iteration was abandoned: {cause}; the sender neither resends nor raises")
+        # (2) never acknowledged by its destination: the sender has to deliver it or raise
         loop = final[a]["loop"]
+        forged = [(by, op) for i in unacked if i is not None for by, op in acked_at.get((a, i), [])
+                  if any(o == op and c == "malformed-frame" for o, c, _ in aborts.get(by, []))]
+        if forged:
+            return ({"kind": "silent-loss", "cause": "malformed-frame-acked", "loop": loop},
+                    f"{key} handed to send at endpoint {a} was never delivered to endpoint {dst} and the sender did not raise: endpoint "
+                    f"{forged[0][0]} acknowledged its Syn while rejecting a malformed frame list that started with that Syn (op {forged[0][1]})")
+        if (a, ent["host"]) in popped:
+            if any(v >= maxr + 1 for v in ent["rounds"].values()) or final[a]["exited"]:
+                return ({"kind": "silent-loss", "cause": "host-popped", "loop": loop},
+                        f"{key} handed to send at endpoint {a} for host {ent['host']} was never delivered and the sender did not raise: "
+                        f"the host was removed from sender.hosts, maybe_retry skips the record for ever")
+            continue
         if final[a]["exited"]:
-            return ({"kind": "silent-loss", "loop": loop + ":exit"},
+            return ({"kind": "silent-loss", "cause": "loop-exited", "loop": loop + ":exit"},
                     f"{key} handed to send at endpoint {a} ({loop}) was never delivered to endpoint {dst}; the sender's loop returned without raising")
         # the loop that was driving the sender when the message was handed over is answerable first
         for lp in [ent["loop"]] + sorted(l for l in ent["rounds"] if l != ent["loop"]):
             if ent["rounds"].get(lp, 0) >= maxr + 1:
-                return ({"kind": "silent-loss", "loop": lp},
+                return ({"kind": "silent-loss", "cause": "no-retry", "loop": lp},
                         f"{key} handed to send at endpoint {a} (in {ent['loop']}) was never delivered to endpoint {dst} and the sender did not "
-                        f"raise although {lp} ran {ent['rounds'][lp]} iterations, each after more than the resend grace (budget {maxr} retries)")
+                        f"raise although {lp} had {ent['rounds'][lp]} opportunities to iterate, each after more than the resend grace (budget {maxr} retries)")
     return None
 
 
 # ----------------------------------------------------------------------------- generator
 
+def gen_malformed(rng, n_eps):
+    """a frame list that is NOT one of the legal shapes, built by damaging a legal one (or at random); Syn frames
+    name real endpoints and small idx values, so they collide with genuine traffic"""
+    def rf():
+        x = rng.random()
+        if x < 0.3:
+            return ["syn", rng.randrange(4), rng.randrange(n_eps)]
+        if x < 0.5:
+            return ["hdr", rng.randrange(3)]
+        if x < 0.62:
+            return ["ack", rng.randrange(3)]
+        if x < 0.85:
+            return ["msg", 900 + rng.randrange(3)]
+        return ["junk", rng.randrange(3)]
+    legal = [[["msg", 901]], [["ack", 2]], [["hdr", 1], rf()], [["syn", rng.randrange(4), rng.randrange(n_eps)], ["msg", 902]],
+             [["syn", rng.randrange(4), rng.randrange(n_eps)], ["hdr", 0], rf()]]
+    for _ in range(20):
+        if rng.random() < 0.8:
+            fs = [list(x) for x in rng.choice(legal)]
+            for _ in range(rng.choice([1, 1, 2])):
+                y = rng.random()
+                if y < 0.4 and fs:
+                    fs.pop(rng.randrange(len(fs)))
+                elif y < 0.75:
+                    fs.insert(rng.randint(0, len(fs)), rf())
+                elif fs:
+                    fs[rng.randrange(len(fs))] = rf()
+        else:
+            fs = [rf() for _ in range(rng.randint(0, 4))]
+        if frame_shape(fs) is None:
+            return fs
+    return [["syn", 0, 0]]
+
+
 def gen_case(rng, tier_big=False):
     r = rng.random()
-    maxr = 20 if r < 0.08 else rng.choice([1, 2, 2, 3, 3])
+    maxr = 20 if r < 0.2 else rng.choice([1, 2, 2, 3, 3])
     style = rng.random()
+    forged = rng.random() < 0.3          # malformed frame lists appear in receive queues
+    faulty = rng.random() < 0.4          # application-level failures: dead worker, failure reports, unexpected messages, shutdown
     eps = []
     if style < 0.35:
         # bare endpoints, fully connected, small-step ops
@@ -566,34 +865,52 @@ def gen_case(rng, tier_big=False):
         if style < 0.35:
             cls = rng.choice(["pub", "purge"])
         elif a == 0:
-            cls = "cmd" if host.startswith("data.") else rng.choice(["purge", "seq"])
+            if host.startswith("data."):
+                cls = "cmd"
+            elif faulty and rng.random() < 0.12:
+                cls = rng.choice(["cmd", "shutdown"])          # an unexpected message / an early shutdown request
+            else:
+                cls = rng.choice(["purge", "seq"])
         else:
             cls = "pub"
         return {"op": "send", "ep": a, "host": host, "cls": cls, "m": fresh()}
 
-    nops = rng.randint(4, 14 if maxr == 20 else (60 if tier_big else 34))
+    nops = rng.randint(4, 24 if maxr == 20 else (60 if tier_big else 34))
     for _ in range(nops):
         x = rng.random()
         if x < 0.24:
             o = rand_send()
             if o:
                 ops.append(o)
-        elif x < 0.30:
+        elif x < 0.31:
             cands = [a for a in range(n) if eps[a]["kind"] == "executor" or style < 0.35]
             if cands:
-                ops.append({"op": "local", "ep": rng.choice(cands), "cls": "pub", "m": fresh()})
+                a = rng.choice(cands)
+                cls = "pub"
+                if faulty and eps[a]["kind"] == "executor" and rng.random() < 0.3:
+                    cls = rng.choice(["fail", "fail", "failx"])
+                ops.append({"op": "local", "ep": a, "cls": cls, "m": fresh()})
         elif x < 0.62:
             ops.append({"op": rng.choice(["deliver", "deliver", "deliver", "drop", "drop", "dup"]), "k": rng.randrange(6)})
         elif x < 0.72:
             a = rng.randrange(n)
             g = eps[a]["grace"]
             ops.append({"op": "tick", "ep": a, "dt": rng.choice([1, g, g + 1, g + 1, 3 * g + 5])})
-        elif x < 0.97:
+        elif x < 0.93:
             a = rng.randrange(n)
             if eps[a]["kind"] == "bare" and rng.random() < 0.6:
                 ops.append({"op": rng.choice(["recv", "recv", "retry"]), "ep": a})
             else:
                 ops.append({"op": "poll", "ep": a})
+        elif x < 0.96:
+            if forged:
+                ops.append({"op": "inject", "ep": rng.randrange(n), "frames": gen_malformed(rng, n)})
+            elif faulty:
+                xs = [a for a in range(n) if eps[a]["kind"] == "executor"]
+                if xs and rng.random() < 0.5:
+                    ops.append({"op": "killworker", "ep": rng.choice(xs)})
+                elif eps[0]["kind"] == "bridge" and rng.random() < 0.3:
+                    ops.append({"op": "shutdown", "ep": 0})
         else:
             a = rng.randrange(n)
             if eps[a]["kind"] == "bare" and eps[a]["hosts"]:
@@ -603,7 +920,7 @@ def gen_case(rng, tier_big=False):
     hole = [] if pol < 0.45 else [rng.randrange(n)]
     for rnd in range(maxr + 2):
         for a in range(n):
-            ops.append({"op": "tick", "ep": a, "dt": eps[a]["grace"] + 1 + rng.choice([0, 0, 200])})
+            ops.append({"op": "tick", "ep": a, "dt": max(eps[a]["grace"], 1000) + 1 + rng.choice([0, 0, 200])})
         if pol > 0.8:
             hole = [rng.randrange(n)] if rng.random() < 0.6 else []
         ops.append({"op": "flush", "drop_to": hole})
@@ -618,25 +935,70 @@ def gen_case(rng, tier_big=False):
 
 
 def witness_cases():
-    """deterministic histories: the two shutdown-handshake findings and a plain executor loss"""
+    """deterministic histories replayed on every run: the known findings (shutdown handshake, popped host,
+    acknowledged-then-abandoned batches) and a plain executor loss"""
     maxr = 2
     ctrl = {"kind": "bridge", "grace": GRACE_MS, "hosts": [["h1", 1], ["data.h1", 2]]}
+    ctrl2 = {"kind": "bridge", "grace": GRACE_MS, "hosts": [["h1", 1], ["h2", 2], ["data.h1", 91], ["data.h2", 92]]}
     ex = {"kind": "executor", "grace": GRACE_MS, "hosts": [["controller", 0]]}
     dl = {"kind": "bare", "grace": GRACE_MS, "hosts": [["controller", 0]]}
-    rounds0 = []
-    for _ in range(maxr + 2):
-        rounds0 += [{"op": "tick", "ep": 0, "dt": 1001}, {"op": "poll", "ep": 0}]
+    pa = {"kind": "bare", "grace": GRACE_MS, "hosts": [["p1", 1]]}
+    pb = {"kind": "bare", "grace": GRACE_MS, "hosts": [["p0", 0]]}
+    bare_ctrl = {"kind": "bare", "grace": GRACE_MS, "hosts": [["h1", 1]]}
+
+    def rounds(ep, dt, extra=()):
+        out = []
+        for _ in range(maxr + 2):
+            out += [{"op": "tick", "ep": ep, "dt": dt}, {"op": "poll", "ep": ep}] + list(extra)
+        return out
     w1 = {"max": maxr, "eps": [ctrl, ex, dl], "name": "bridge-shutdown-lost",
-          "ops": [{"op": "shutdown", "ep": 0}, {"op": "flush", "drop_to": [1]}] + rounds0}
+          "ops": [{"op": "shutdown", "ep": 0}, {"op": "flush", "drop_to": [1]}] + rounds(0, 1001)}
     w2 = {"max": maxr, "eps": [ctrl, ex, dl], "name": "executor-exit-lost",
           "ops": [{"op": "send", "ep": 0, "host": "h1", "cls": "shutdown", "m": 0}, {"op": "flush", "drop_to": []},
                   {"op": "poll", "ep": 1}, {"op": "flush", "drop_to": [0]}, {"op": "poll", "ep": 1}, {"op": "poll", "ep": 1}]}
-    rounds1 = []
-    for _ in range(maxr + 2):
-        rounds1 += [{"op": "tick", "ep": 1, "dt": 801}, {"op": "poll", "ep": 1}, {"op": "flush", "drop_to": [0]}]
     w3 = {"max": maxr, "eps": [ctrl, ex, dl], "name": "executor-publish-lost",
-          "ops": [{"op": "local", "ep": 1, "cls": "pub", "m": 1}, {"op": "poll", "ep": 1}, {"op": "flush", "drop_to": [0]}] + rounds1}
-    return [w1, w2, w3]
+          "ops": [{"op": "local", "ep": 1, "cls": "pub", "m": 1}, {"op": "poll", "ep": 1}, {"op": "flush", "drop_to": [0]}]
+          + rounds(1, 1001, [{"op": "flush", "drop_to": [0]}])}
+    # c06_raises_within_budget_full_fails on the real ReliableSender: the only transmission lost, the host popped
+    w4 = {"max": maxr, "eps": [pa, pb], "name": "popped-host-inflight",
+          "ops": [{"op": "send", "ep": 0, "host": "p1", "cls": "purge", "m": 1}, {"op": "flush", "drop_to": [1]},
+                  {"op": "pop", "ep": 0, "host": "p1"}] + rounds(0, 1001)}
+    # c06_app_exactly_once_full_fails on the real loops
+    w5 = {"max": maxr, "eps": [bare_ctrl, ex], "name": "acked-then-break-at-shutdown",
+          "ops": [{"op": "send", "ep": 0, "host": "h1", "cls": "shutdown", "m": 0},
+                  {"op": "send", "ep": 0, "host": "h1", "cls": "purge", "m": 1}, {"op": "flush", "drop_to": []},
+                  {"op": "poll", "ep": 1}, {"op": "flush", "drop_to": []}] + rounds(0, 1001)}
+    w6 = {"max": maxr, "eps": [bare_ctrl, ex], "name": "acked-then-handler-exception",
+          "ops": [{"op": "killworker", "ep": 1},
+                  {"op": "send", "ep": 0, "host": "h1", "cls": "seq", "m": 1},
+                  {"op": "send", "ep": 0, "host": "h1", "cls": "purge", "m": 2}, {"op": "flush", "drop_to": []},
+                  {"op": "poll", "ep": 1}, {"op": "flush", "drop_to": []}] + rounds(0, 1001)}
+    w7 = {"max": maxr, "eps": [ctrl2, ex, ex], "name": "acked-then-shutdown-reason",
+          "ops": [{"op": "local", "ep": 1, "cls": "pub", "m": 1}, {"op": "local", "ep": 2, "cls": "fail", "m": 2},
+                  {"op": "poll", "ep": 1}, {"op": "poll", "ep": 2}, {"op": "flush", "drop_to": []},
+                  {"op": "poll", "ep": 0}, {"op": "flush", "drop_to": []}]
+          + rounds(1, 1001, [{"op": "flush", "drop_to": []}])}
+    # c06_app_exactly_once_forged_fails on the real Listener (bare) and on the real executor loop
+    w8 = {"max": maxr, "eps": [pa, pb], "name": "acked-then-malformed-frame",
+          "ops": [{"op": "send", "ep": 0, "host": "p1", "cls": "purge", "m": 1}, {"op": "flush", "drop_to": []},
+                  {"op": "inject", "ep": 1, "frames": [["syn", 9, 0]]},
+                  {"op": "poll", "ep": 1}, {"op": "flush", "drop_to": []}] + rounds(0, 1001)}
+    w9 = {"max": maxr, "eps": [bare_ctrl, ex], "name": "acked-then-malformed-frame-executor",
+          "ops": [{"op": "send", "ep": 0, "host": "h1", "cls": "purge", "m": 1}, {"op": "flush", "drop_to": []},
+                  {"op": "inject", "ep": 1, "frames": [["syn", 9, 0]]},
+                  {"op": "poll", "ep": 1}, {"op": "flush", "drop_to": []}] + rounds(0, 1001)}
+    w10 = {"max": maxr, "eps": [ctrl, ex, dl], "name": "acked-then-retry-raised",
+           "ops": [{"op": "send", "ep": 0, "host": "h1", "cls": "purge", "m": 1}, {"op": "flush", "drop_to": [1]},
+                   {"op": "tick", "ep": 0, "dt": 1001}, {"op": "poll", "ep": 0}, {"op": "flush", "drop_to": [1]},
+                   {"op": "local", "ep": 1, "cls": "pub", "m": 2}, {"op": "poll", "ep": 1}, {"op": "flush", "drop_to": [1]},
+                   {"op": "tick", "ep": 0, "dt": 1001}, {"op": "poll", "ep": 0}, {"op": "flush", "drop_to": [1]}]
+           + rounds(1, 1001, [{"op": "flush", "drop_to": [1]}])}
+    # a rejected malformed list still acknowledges its leading Syn - here at a third endpoint
+    w11 = {"max": maxr, "eps": [ctrl2, dl, ex], "name": "malformed-frame-acks-syn",
+           "ops": [{"op": "inject", "ep": 2, "frames": [["syn", 0, 1], ["hdr", 0]]}, {"op": "poll", "ep": 2},
+                   {"op": "send", "ep": 1, "host": "controller", "cls": "pub", "m": 4}, {"op": "flush", "drop_to": [0]}]
+           + rounds(1, 1001)}
+    return [w1, w2, w3, w4, w5, w6, w7, w8, w9, w10, w11]
 
 
 # ----------------------------------------------------------------------------- frames (raw _recv_one)
@@ -812,25 +1174,44 @@ def _stats(ctx, case, rr):
     ctx.count("packets_duplicated", n_dup)
     ctx.count("packets_delivered", sum(1 for t in rr.trace if t[0] == "deliver"))
     ctx.count("messages_sent", sum(1 for t in rr.trace if t[0] == "sent"))
-    ctx.count("messages_delivered", sum(1 for t in rr.trace if t[0] == "delivered"))
+    ctx.count("messages_accepted_by_listener", sum(1 for t in rr.trace if t[0] == "accepted"))
+    ctx.count("messages_handed_to_application", sum(1 for t in rr.trace if t[0] == "handled"))
     ctx.count("sender_raised", sum(1 for t in rr.trace if t[0] == "raised"))
     ctx.count("max_retries=%d" % case["max"])
+    for t in rr.trace:
+        if t[0] == "aborted":
+            ctx.count("iteration-abandoned:" + t[2])
+        elif t[0] == "inject":
+            ctx.count("injected-frame-lists")
+        elif t[0] == "popped":
+            ctx.count("hosts-popped")
+    if case["max"] == 20:
+        ctx.count("ops-with-real-budget", len(case["ops"]))
     return n_drop, n_dup
 
 
 def _check_table(ctx, rr, case):
     """dynamic cross-check of the translator: what the real loop did in each iteration vs the table"""
     tab = _table()["loops"]
+    consts = _table()["consts"]
+    cd = {"loop": None, "case": case.get("name"), "max": case["max"], "eps": case["eps"], "ops": case["ops"]}
     for name, retried, nack, fed, failed in rr.loops_seen:
         if name not in tab or failed:
             continue
         ctx.count("loop-iteration:" + name)
         if retried != tab[name]["callsRetry"]:
-            ctx.disagree("translator-vs-dynamic", {"loop": name, "case": case.get("name"), "max": case["max"], "eps": case["eps"], "ops": case["ops"]},
+            ctx.disagree("translator-vs-dynamic", dict(cd, loop=name),
                          {"callsRetry": tab[name]["callsRetry"]}, {"maybe_retry called in the iteration": retried})
         if nack > 0 and (fed > 0) != tab[name]["feedsAck"]:
-            ctx.disagree("translator-vs-dynamic", {"loop": name, "case": case.get("name"), "max": case["max"], "eps": case["eps"], "ops": case["ops"]},
+            ctx.disagree("translator-vs-dynamic", dict(cd, loop=name),
                          {"feedsAck": tab[name]["feedsAck"]}, {"acks received": nack, "sender.ack calls": fed})
+    for name, tmo in rr.polls_seen:
+        if name not in tab:
+            continue
+        ctx.count(f"poll-timeout:{name}:{tmo}")
+        if tmo != timeout_ms(tab[name], consts):
+            ctx.disagree("translator-vs-dynamic", dict(cd, loop=name),
+                         {"timeoutMs": timeout_ms(tab[name], consts)}, {"blocking poll entered with timeout": tmo})
 
 
 def _report_violation(ctx, case, viol):
@@ -866,7 +1247,7 @@ def _real_phase(ctx, with_model=True):
         retrans = sum(1 for o in out if isinstance(o[1], dict) and any(p[1] and p[1][0][0] == "syn" for p in o[1].get("wire", []))) \
             - sum(1 for t in rr.trace if t[0] == "sent")
         ctx.case({"max": case["max"], "eps": [e["kind"] for e in case["eps"]], "ops": case["ops"][:10], "n_ops": len(case["ops"])},
-                 nontrivial=(n_drop + n_dup > 0 and retrans > 0))
+                 nontrivial=((n_drop + n_dup > 0 and retrans > 0) or any(t[0] == "aborted" for t in rr.trace)))
         _check_table(ctx, rr, case)
         viol = oracle(case, rr.trace, rr.final)
         if viol:
